@@ -1,7 +1,8 @@
 import Rare.Proofs.C18RT
 /-!
 C18: the zone abbreviations Go's `parseTimeZone` reads back in full (so that a layout with `MST`
-round-trips): three upper-case letters, four or five upper-case letters ending in `T`.
+round-trips): three upper-case letters, four or five upper-case letters ending in `T`, and the
+numeric abbreviations `±hh` (hh ≤ 23) of the tz database.
 -/
 namespace Rare.C18
 
@@ -104,6 +105,60 @@ theorem abbrOK_of_shape (abbr : Bytes) (off : Int) (h : abbrShape abbr = true) (
 
 example : AbbrOK (asc "CEST") 7200 := abbrOK_of_shape _ _ (by decide) (by decide)
 example : AbbrOK (asc "UTC") 0 := abbrOK_of_shape _ _ (by decide) (fun _ => rfl)
-example : AbbrOK (asc "-03") (-10800) := ⟨by decide, ⟨_, _, rfl, by decide⟩, by decide, rfl, fun r => rfl⟩
 example : AbbrOK (asc "GMT") 0 := abbrOK_of_shape _ _ (by decide) (by decide)
+
+/-! ## numeric abbreviations (`-03`, `+11`) -/
+
+/-- hours 00..23 as two digit bytes -/
+def hh2 (d1 d2 : UInt8) : Bool := (d1 == 48 || d1 == 49) && isDigitB d2 || d1 == 50 && (decide (48 ≤ d2) && decide (d2 ≤ 51))
+
+theorem hh2_facts (d1 d2 : UInt8) (h : hh2 d1 d2 = true) :
+    isDigitB d1 = true ∧ isDigitB d2 = true ∧ (d1.toNat - 48) * 10 + (d2.toNat - 48) ≤ 23 := by
+  unfold hh2 at h
+  simp only [Bool.or_eq_true, Bool.and_eq_true, beq_iff_eq, decide_eq_true_eq] at h
+  have dig : ∀ c : UInt8, isDigitB c = true → 48 ≤ c.toNat ∧ c.toNat ≤ 57 := by
+    intro c hc
+    unfold isDigitB at hc
+    simp only [Bool.and_eq_true, decide_eq_true_eq] at hc
+    exact ⟨by simpa [UInt8.le_iff_toNat_le] using hc.1, by simpa [UInt8.le_iff_toNat_le] using hc.2⟩
+  rcases h with ⟨h1 | h1, h2⟩ | ⟨h1, h2, h3⟩
+  · subst h1; have := dig d2 h2; exact ⟨by decide, h2, by simp; omega⟩
+  · subst h1; have := dig d2 h2; exact ⟨by decide, h2, by simp; omega⟩
+  · subst h1
+    have a : 48 ≤ d2.toNat := by simpa [UInt8.le_iff_toNat_le] using h2
+    have b : d2.toNat ≤ 51 := by simpa [UInt8.le_iff_toNat_le] using h3
+    refine ⟨by decide, ?_, by simp; omega⟩
+    unfold isDigitB
+    simp only [Bool.and_eq_true, decide_eq_true_eq, UInt8.le_iff_toNat_le]
+    exact ⟨by simpa using a, by simp; omega⟩
+
+theorem ptz_numeric (s d1 d2 : UInt8) (hs : s = 43 ∨ s = 45) (h : hh2 d1 d2 = true) (rest : Bytes)
+    (hr : rest = [] ∨ ∃ r, rest = 32 :: r) : parseTimeZone (s :: d1 :: d2 :: rest) = some 3 := by
+  obtain ⟨h1, h2, hv⟩ := hh2_facts d1 d2 h
+  have e1 : asc "ChST" = [67, 104, 83, 84] := by decide
+  have e2 : asc "MeST" = [77, 101, 83, 84] := by decide
+  have e3 : asc "GMT" = [71, 77, 84] := by decide
+  have hsp : isDigitB 32 = false := by decide
+  have hv' : ¬ ((d1.toNat - 48) * 10 + (d2.toNat - 48) > 23) := by omega
+  rcases hs with hs | hs <;> subst hs <;> rcases hr with hr | ⟨r, hr⟩ <;> subst hr <;>
+  · unfold parseTimeZone
+    simp [e1, e2, e3, parseSignedOffset, leadingDigits, List.takeWhile, h1, h2, hsp, digitsVal, hv']
+
+/-- Numeric zone abbreviations of the tz database (`-03`, `+11`): a sign and an hour 00..23. -/
+theorem abbrOK_numeric (s d1 d2 : UInt8) (off : Int) (hs : s = 43 ∨ s = 45) (h : hh2 d1 d2 = true) :
+    AbbrOK [s, d1, d2] off := by
+  refine ⟨by simp, ⟨s, _, rfl, by rcases hs with e | e <;> subst e <;> decide⟩, ?_,
+    ptz_numeric s d1 d2 hs h [] (Or.inl rfl), fun r => ptz_numeric s d1 d2 hs h _ (Or.inr ⟨r, rfl⟩)⟩
+  intro e
+  exfalso
+  have hutc : utcB = [85, 84, 67] := by decide
+  rw [hutc] at e
+  have : s = 85 := by
+    have := congrArg List.head? e
+    simpa using this
+  rcases hs with e | e <;> subst e <;> exact absurd this (by decide)
+
+example : AbbrOK (asc "-03") (-10800) := abbrOK_numeric 45 48 51 _ (Or.inr rfl) (by decide)
+example : AbbrOK (asc "+11") 39600 := abbrOK_numeric 43 49 49 _ (Or.inl rfl) (by decide)
+
 end Rare.C18
